@@ -147,6 +147,25 @@ func (n *node[T]) addMethods(h T, pattern string, ms []types.Middleware[T], meth
 	return nil
 }
 
+// 当前节点上由用户注册的请求方法，不包含自动生成的 OPTIONS、HEAD 和 405。
+func (n *node[T]) userMethods() []string {
+	ms := make([]string, 0, len(n.handlers))
+	for m := range n.handlers {
+		if m != http.MethodOptions && m != http.MethodHead && m != methodNotAllowed {
+			ms = append(ms, m)
+		}
+	}
+	return ms
+}
+
+// 将当前节点及其所有子节点的请求方法从 Tree.methods 的计数中去除
+func (n *node[T]) uncount() {
+	n.root.buildMethods(-1, n.userMethods()...)
+	for _, c := range n.children {
+		c.uncount()
+	}
+}
+
 // num 表示为该请求方法加上的计数
 func (tree *Tree[T]) buildMethods(num int, methods ...string) {
 	for _, m := range methods {
